@@ -281,9 +281,241 @@ def dnc_parent_probe(chk, cases, bad, extra):
                                  "@spec_class(do_not_copy=True) class are copy-on-write: receiver unchanged, result distinct"}
 
 
+# ---------------------------------------------------------------------------
+# Elements addressed BY VALUE with an element OBJECT (implementation level; the model-level
+# twin is inst_gen.byvalue_cases): `update_<item>(<obj>, **attrs)`, `update_<item>(<obj>, <new>,
+# **attrs)`, `transform_<item>(<obj>, **attr_transforms)`, `transform_<item>(<obj>, fn)`,
+# `without_<item>(<obj>)`, `with_<item>(<obj>, **attrs)` where <obj> is the receiver's OWN element
+# (`r.update_part(r.parts[0], size=5)`), an equal free-standing instance, a deep copy of the own
+# element, or an instance equal to no element -- on class shapes outside the model: List of
+# unkeyed items with a float / nested list / nested spec attribute, items of a plain subclass,
+# List of keyed items, Optional items, KeyedList and KeyedSet attributes.  Every case is a
+# JSON-able tuple re-executed from scratch by `_byvalue_run` (so a report is a concrete replay).
+# Oracle: the property statement -- identity and content of everything reachable from the
+# receiver and from every argument / keyword value is unchanged, whether the call returns or raises.
+_BV = None
+
+
+def _byvalue_zoo():
+    global _BV
+    if _BV is not None:
+        return _BV
+    from typing import List, Optional
+
+    from spec_classes import Attr, spec_class
+    from spec_classes.types import KeyedList, KeyedSet
+
+    @spec_class
+    class Leaf:
+        a: int = 0
+
+    @spec_class
+    class Part:
+        size: int = 1
+        label: str = "p"
+        ratio: float = 0.5
+        notes: List[str] = []
+        leaf: Leaf = Leaf()
+
+    class PartSub(Part):            # plain subclass: same managed attributes
+        size = 3
+
+    @spec_class(key="k")
+    class KPart:
+        k: str
+        size: int = 0
+        notes: List[str] = []
+
+    @spec_class
+    class Box:
+        name: str = "box"
+        parts: List[Part] = []
+        kparts: List[KPart] = []
+        maybes: List[Optional[Part]] = []
+        items: KeyedList[KPart, str] = Attr(default_factory=KeyedList)
+        tags: KeyedSet[KPart, str] = Attr(default_factory=KeyedSet)
+
+    @spec_class
+    class BoxSub(Box):
+        extra: int = 0
+
+    class BoxPlain(Box):
+        pass
+
+    _BV = dict(Leaf=Leaf, Part=Part, PartSub=PartSub, KPart=KPart, Box=Box, BoxSub=BoxSub, BoxPlain=BoxPlain)
+    return _BV
+
+
+BV_ATTRS = {"parts": "part", "kparts": "kpart", "maybes": "maybe", "items": "item", "tags": "tag"}
+BV_LOOKUPS = ["own", "own_last", "equal", "copy", "absent"]
+BV_OPS = ["update_kw", "update_kw2", "update_kw_bad_first", "update_kw_bad_last", "update_new", "update_new_kw",
+          "transform_kwfn", "transform_kwfn2", "transform_kwfn_raise", "transform_kwfn_bad", "transform_fn",
+          "transform_fn_raise", "without", "with_kw", "with_kw_bad"]
+BV_BYINDEX = ["absent", "false"]
+BV_HOLDERS = ["Box", "BoxSub", "BoxPlain"]
+
+
+def _byvalue_cases():
+    out = []
+    for attr in BV_ATTRS:
+        for holder in BV_HOLDERS:
+            for lookup in BV_LOOKUPS:
+                for op in BV_OPS:
+                    for bi in BV_BYINDEX:
+                        if bi != "absent" and (attr == "tags" or op.startswith("with_")):
+                            continue        # sets and with_<item> take no _by_index
+                        out.append([holder, attr, lookup, op, bi])
+    return out
+
+
+def _byvalue_run(case):
+    """-> dict(outcome, before, after, changed) or None when the initial state cannot be built"""
+    import copy
+
+    from wide_explore import snapshot
+    holder, attr, lookup, op, bi = case
+    z = _byvalue_zoo()
+    Part, PartSub, KPart, Leaf = z["Part"], z["PartSub"], z["KPart"], z["Leaf"]
+    try:
+        box = z[holder](
+            parts=[Part(size=1, label="a", notes=["n"]), PartSub(label="b"), Part(size=2, label="c", leaf=Leaf(a=4))],
+            kparts=[KPart("x", size=1, notes=["n"]), KPart("y", size=2)],
+            maybes=[Part(size=1, label="a"), None, Part(size=2, label="b")],
+            items=[KPart("x", size=1, notes=["n"]), KPart("y", size=2)],
+            tags=[KPart("x", size=1, notes=["n"]), KPart("y", size=2)])
+        coll = getattr(box, attr)
+        elems = [e for e in coll if e is not None]
+        keyed = attr in ("kparts", "items", "tags")
+        if lookup == "own":
+            target = elems[0]
+        elif lookup == "own_last":
+            target = elems[-1]
+        elif lookup == "equal":
+            e = elems[0]
+            target = KPart(e.k, size=e.size, notes=list(e.notes)) if keyed else \
+                Part(size=e.size, label=e.label, notes=list(e.notes))
+        elif lookup == "copy":
+            target = copy.deepcopy(elems[-1])
+        else:
+            target = KPart("zz", size=9) if keyed else Part(size=9, label="zz")
+        new = KPart("x", size=7) if keyed else Part(size=7, label="new")
+    except Exception:
+        return None
+
+    def boom(_):
+        raise RuntimeError("callback raises")
+    args, kw = [target], {}
+    if op == "update_kw":
+        m, kw = "update_", {"size": 5}
+    elif op == "update_kw2":
+        m, kw = "update_", {"size": 5, "notes": ["m"]}
+    elif op == "update_kw_bad_first":
+        m, kw = "update_", {"size": "bad", "notes": ["m"]}
+    elif op == "update_kw_bad_last":
+        m, kw = "update_", {"notes": ["m"], "size": "bad"}
+    elif op == "update_new":
+        m, args = "update_", [target, new]
+    elif op == "update_new_kw":
+        m, args, kw = "update_", [target, new], {"size": 6}
+    elif op == "transform_kwfn":
+        m, kw = "transform_", {"size": lambda v: v + 10}
+    elif op == "transform_kwfn2":
+        m, kw = "transform_", {"size": lambda v: v + 10, "notes": lambda v: v + ["t"]}
+    elif op == "transform_kwfn_raise":
+        m, kw = "transform_", {"size": lambda v: v + 10, "notes": boom}
+    elif op == "transform_kwfn_bad":
+        m, kw = "transform_", {"notes": lambda v: v + ["t"], "size": lambda v: "bad"}
+    elif op == "transform_fn":
+        m, args = "transform_", [target, lambda v: v]
+    elif op == "transform_fn_raise":
+        m, args = "transform_", [target, boom]
+    elif op == "without":
+        m = "without_"
+    elif op == "with_kw":
+        m, kw = "with_", {"size": 5}
+    elif op == "with_kw_bad":
+        m, kw = "with_", {"notes": ["m"], "size": "bad"}
+    else:
+        raise AssertionError(op)
+    if bi == "false":
+        kw["_by_index"] = False
+    meth = getattr(box, m + BV_ATTRS[attr])
+    watched = [box] + [a for a in args if not callable(a)] + [v for v in kw.values() if not callable(v)]
+    before = [snapshot(o) for o in watched]
+    outcome, res = "returned", None
+    try:
+        res = meth(*args, **kw)
+    except BaseException as e:
+        if isinstance(e, (KeyboardInterrupt, SystemExit)):
+            raise
+        outcome = "raised " + type(e).__name__
+    after = [snapshot(o) for o in watched]
+    changed = [i for i, (b, a) in enumerate(zip(before, after)) if a != b]
+    return {"outcome": outcome, "changed": changed, "result_is_receiver": res is box,
+            "before": before, "after": after}
+
+
+def _byvalue_problem(r):
+    if r is None:
+        return None
+    if r["changed"]:
+        return ("the receiver" if 0 in r["changed"] else "an argument (the lookup object / replacement / keyword value)") \
+            + " changed"
+    if r["result_is_receiver"]:
+        return "the receiver itself was returned"
+    return None
+
+
+def _byvalue_label(case):
+    holder, attr, lookup, op, bi = case
+    return f"{holder}.{op.split('_')[0]}_{BV_ATTRS[attr]}(<{lookup} element>, ...) [{op}, _by_index {bi}]"
+
+
+def byvalue_probe(chk, cases, bad, extra):
+    all_cases = _byvalue_cases()
+    tried = raised = 0
+    reported = set()
+    for case in all_cases:
+        r = _byvalue_run(case)
+        if r is None:
+            continue
+        tried += 1
+        raised += r["outcome"] != "returned"
+        problem = _byvalue_problem(r)
+        key = (case[1], case[3].split("_")[0])
+        if problem and key not in reported and len(reported) < 3:
+            reported.add(key)
+            chk.violation(f"copy-on-write element helper addressed by an element object: {_byvalue_label(case)} "
+                          f"({r['outcome']}): {problem}",
+                          {"kind": "byvalue-probe", "case": case, "outcome": r["outcome"], "changed": r["changed"],
+                           "before": repr(r["before"])[:3000], "after": repr(r["after"])[:3000]},
+                          sig={"kind": "byvalue-probe", "attr": case[1], "op": case[3]})
+    extra["byvalue_probe"] = {"calls": tried, "raised": raised,
+                              "rule": "implementation only, exhaustive over holder class x collection attribute (List of unkeyed / "
+                                      "keyed / Optional spec items, KeyedList, KeyedSet) x lookup object (own element, own last "
+                                      "element, equal free-standing instance, deep copy, absent) x element helper form x _by_index; "
+                                      "oracle: receiver and every argument unchanged (identity and content), result is not the receiver"}
+
+
+def byvalue_replay(path):
+    import json
+    with open(path) as fh:
+        case = json.load(fh)["case"]
+    r = _byvalue_run(case)
+    problem = _byvalue_problem(r)
+    print("replay:", _byvalue_label(case))
+    if r is not None:
+        print("  outcome:", r["outcome"], "| changed (0 = receiver, 1.. = arguments):", r["changed"])
+        print("  before:", repr(r["before"])[:600])
+        print("  after: ", repr(r["after"])[:600])
+    print("replay:", f"still failing ({problem})" if problem else "passes now")
+    return 1 if problem else 0
+
+
 def _post(chk, cases, bad, extra):
     line_injection(chk, cases, bad, extra)
     keyed_attributes(chk, cases, bad, extra)
+    byvalue_probe(chk, cases, bad, extra)
     import keyed_explore
     keyed_explore.explore(chk, extra, "C01")
     dnc_parent_probe(chk, cases, bad, extra)
@@ -293,11 +525,20 @@ def _post(chk, cases, bad, extra):
     c04_validated.explore(chk, extra, "C01", n_quick=1200, n_thorough=15000)
 
 
+def _aimed(rng, t):
+    quick = t == "quick"
+    # elements addressed by index / key / scalar value; then elements of a List of spec items
+    # addressed BY VALUE with an instance (own element, the caller's original, equal instance)
+    return (ig.element_cases(rng, 300 if quick else 5000, inplace_values=(False,))
+            + ig.byvalue_cases(rng, 150 if quick else 3000, inplace_values=(False,)))
+
+
 def main(tier, replay=None):  # noqa: F811
     if replay and '"validated-zoo"' in open(replay).read():
         import c04_validated
         return c04_validated.replay("C01", replay)
+    if replay and '"byvalue-probe"' in open(replay).read():
+        return byvalue_replay(replay)
     if replay:
         return inst_check.replay("C01", replay, 2)
-    return inst_check.run("C01", tier, 2, GENS, 400, 6000, ASSUMPTIONS, post=_post,
-                          aimed=lambda rng, t: ig.element_cases(rng, 300 if t == "quick" else 5000, inplace_values=(False,)))
+    return inst_check.run("C01", tier, 2, GENS, 400, 6000, ASSUMPTIONS, post=_post, aimed=_aimed)
